@@ -536,6 +536,20 @@ func (rpi RetentionPolicyInfo) Clone() *RetentionPolicyInfo {
 			other.MstVersions[k] = *mstv.clone()
 		}
 	}
+	if rpi.Subscriptions != nil {
+		other.Subscriptions = make([]SubscriptionInfo, len(rpi.Subscriptions))
+		for i := range rpi.Subscriptions {
+			other.Subscriptions[i] = rpi.Subscriptions[i]
+			if rpi.Subscriptions[i].Destinations != nil {
+				other.Subscriptions[i].Destinations = append([]string(nil), rpi.Subscriptions[i].Destinations...)
+			}
+		}
+	}
+	if rpi.DownSamplePolicyInfo != nil {
+		// the policy object is modified in place when the policy is dropped
+		dsp := *rpi.DownSamplePolicyInfo
+		other.DownSamplePolicyInfo = &dsp
+	}
 	return &other
 }
 
